@@ -1,6 +1,8 @@
 /- Kernel obligation: entries 0x1000..0x1fff of the live float16->code table `Gen.encE4M3O` pass `encChk`
-   (one sixteenth of the table per file so that lake checks them in parallel; assembled in Proofs/C11_Tables.lean). -/
-import BitstringModel.Model.C11
+   (one sixteenth of the table per file so that lake checks them in parallel; depends only on the specification and on
+   this table; assembled in Proofs/C11_Tables.lean). -/
+import BitstringModel.Model.C11_Spec
+import BitstringModel.Gen.LutEncE4M3O
 namespace BM.C11
-theorem encChunk_E4M3O_01 : encChunkOk .e4m3o 1 = true := by decide +kernel
+theorem encChunk_E4M3O_01 : encChunkOkT Gen.encE4M3O Fmt.e4m3 .overflow 1 = true := by decide +kernel
 end BM.C11
